@@ -1018,6 +1018,36 @@ func callBuiltin(caller *frame, fn *ssa.Builtin, args []value) value {
 		close(args[0].(chan value))
 		return nil
 
+	case "clear": // clear(map) / clear(slice)
+		switch m := args[0].(type) {
+		case *omap:
+			if m != nil {
+				if m.nsym > 0 {
+					panic(unsupported{"clear on a map with symbolic keys"})
+				}
+				for _, e := range m.ents {
+					if !e.dead {
+						e.dead = true
+						m.n--
+					}
+				}
+			}
+		case []value:
+			if st, ok := fn.Type().(*types.Signature); ok && st.Params().Len() == 1 {
+				if sl, ok := st.Params().At(0).Type().Underlying().(*types.Slice); ok {
+					for i := range m {
+						m[i] = zero(sl.Elem())
+					}
+					return nil
+				}
+			}
+			panic(unsupported{"clear of a slice of unknown element type"})
+		case nil:
+		default:
+			panic(unsupported{fmt.Sprintf("clear of %T", m)})
+		}
+		return nil
+
 	case "delete": // delete(map[K]value, K)
 		switch m := args[0].(type) {
 		case *omap:
